@@ -113,6 +113,30 @@ pub fn jobs(ctx: &Ctx) -> Vec<RJob> {
             }
         }
     }
+    // big pictures: sides beyond 4096 and 8192 pixels, by request (fit) and by a huge quiet zone at original scale
+    {
+        let big: Vec<(usize, usize, Option<u32>, usize)> = vec![(1, 0, Some(4097), 0), (2, 1, Some(4800), 2), (3, 0, Some(4096), 5), (1, 2040, None, 0), (1, 4, Some(8200), 0), (2, 2048, None, 0), (5, 0, Some(6000), 1), (1, 1, Some(16_390), 0)];
+        for (i, (v, margin, fit, shape)) in big.into_iter().enumerate() {
+            if ctx.tier == Tier::Quick && i >= 4 {
+                break;
+            }
+            k += 1;
+            let mut rng = Rng::new(mix(ctx.seed, k ^ 0xb16));
+            let level = rng.below(4);
+            let cap = ctx.caps.cap(v, level, 2);
+            let job = Job { fam: FAMS[0], class: 2, mode: Some(2), level: Some(level), version: Some(v), mask: Some(rng.below(8)), len: 1 + rng.below(cap), gen: rng.below(GEN_COUNT), seed: mix(ctx.seed, k ^ 0x13) | 1, ..Default::default() };
+            let mut spec = Spec { margin: Some(margin), ..Default::default() };
+            if shape != 0 {
+                spec.layers.push((shape, None));
+            }
+            if i % 2 == 0 {
+                spec.fit_width = fit;
+            } else {
+                spec.fit_height = fit;
+            }
+            out.push(RJob { job, spec });
+        }
+    }
     // symbols whose number of dark modules is exactly a power of two / a multiple of 4096 (found by search)
     for (i, (v, dk)) in Job::dark_count_cells().into_iter().enumerate() {
         if ctx.tier == Tier::Quick && v > 27 && i % 2 == 0 {
@@ -210,6 +234,9 @@ pub fn observe(_ctx: &Ctx, st: &mut Stats, rj: &RJob) {
     if w != h || w != want_side {
         return fail(st, "pixmap-size", format!("pixmap is {w} x {h}, expected a square of side {want_side}"));
     }
+    if w >= 4096 {
+        st.reach("pixmap_sides_of_4096_and_more", w as u64);
+    }
     let data = pix.data();
     let scale = w as f64 / units as f64;
     let bg = rj.spec.background_colour().rgba().unwrap();
@@ -306,7 +333,7 @@ pub fn run(ctx: &Ctx) -> Report {
     }
     let mut rep = Report::new(
         st,
-        "jobs = versions {1,2,7,10,20,40} (thorough: all 40) x 6 built-in shapes x margins {0,1,4} x fit {none, width only, height only, both (smaller one decides)} at integer 1-3 px/module and 4.0-7.5 px/module (integer and fractional) x colour pairs {default, transparent background, random opaque, random on alpha-0 background, semi-transparent modules}; observed: pixmap side == size+2*margin or the requested square; pixel at the centre of every cell (dark -> module colour, light and quiet zone -> background) when >= 4 px/module, every pixel of every cell for Square at integer scale; PNG bytes decoded by an own PNG reader (CRC, inflate, unfilter) equal the pixmap; thorough adds the ASan stage over usvg/resvg/tiny-skia; distinct key = (qr options, payload hash, spec); every render non-trivial",
+        "jobs = versions {1,2,7,10,20,40} (thorough: all 40) x 6 built-in shapes x margins {0,1,4} x fit {none, width only, height only, both (smaller one decides)} + big pictures (sides 4096, 4097, 4800, 4101 by a quiet zone of 2040 modules; thorough: 6000, 8200, 4121 by quiet zone, 16390) at integer 1-3 px/module and 4.0-7.5 px/module (integer and fractional) x colour pairs {default, transparent background, random opaque, random on alpha-0 background, semi-transparent modules}; observed: pixmap side == size+2*margin or the requested square; pixel at the centre of every cell (dark -> module colour, light and quiet zone -> background) when >= 4 px/module, every pixel of every cell for Square at integer scale; PNG bytes decoded by an own PNG reader (CRC, inflate, unfilter) equal the pixmap; thorough adds the ASan stage over usvg/resvg/tiny-skia; distinct key = (qr options, payload hash, spec); every render non-trivial",
     );
     rep.expected_sets = vec![("shapes", 6), ("fit_kinds", 4), ("margins", 3)];
     rep.required_sets = vec![("shapes", 6), ("fit_kinds", 4), ("margins", 3)];
